@@ -56,3 +56,37 @@ Proof.
   - split; [|exact P]. intros q Hq. apply L2; [lra| apply in_seq; lia].
   - exfalso. lra.
 Qed.
+
+(* two spins with periodic boundary: the closing coupling (1, 0) is the key (0, 1) again and overwrites the open chain's single
+   coupling with the strength of position 1 *)
+Theorem asc_value_pbc2 chain min_s max_s H : asc_to_quso 2 chain min_s max_s true = Ok H ->
+  forall z, spin_env z -> eval z (tm H) == asc_strength chain min_s max_s 1 * (z 0%nat * z 1%nat).
+Proof.
+  unfold asc_to_quso. intros HH z Hz.
+  destruct (m_update (empty_model KQusoM) _) as [L|] eqn:EL; cbn [bind] in HH; [|discriminate].
+  destruct (m_update_chain (asc_strength chain min_s max_s) z Hz (seq 0 (2 - 1)) _ _ EL eq_refl (seq_NoDup _ _)) as [A KL]; [intros k []|].
+  destruct (m_setitem_spec _ _ _ _ HH) as (k' & Hs & Ht & _). rewrite KL in Hs.
+  assert (Ek : k' = [0%nat; 1%nat]) by (vm_compute in Hs; congruence). subst k'.
+  rewrite Ht, eval_set_sq.
+  (* the open chain's coupling is the stored value of that key *)
+  assert (G : get_sq (tm L) [0%nat; 1%nat] * (z 0%nat * z 1%nat) == eval z (tm L)).
+  { cbn [map seq Nat.sub m_update] in EL. destruct (m_setitem (empty_model KQusoM) [0%nat; 1%nat] _) as [m1|] eqn:E1; cbn [bind] in EL; [|discriminate].
+    injection EL as <-. destruct (m_setitem_spec _ _ _ _ E1) as (k1 & Hs1 & Ht1 & _).
+    assert (Ek1 : k1 = [0%nat; 1%nat]) by (vm_compute in Hs1; congruence). subst k1.
+    rewrite Ht1. cbn [tm empty_model]. unfold set_sq, get_sq. destruct (qzero _) eqn:Ez.
+    - simpl. ring.
+    - simpl. ring. }
+  unfold asc_strength. change ((2 - 1) / chain)%nat with (1 / chain)%nat. cbn [mon].
+  set (f := if Nat.even (1 / chain) then - max_s else - min_s). rewrite <- G. ring.
+Qed.
+
+Theorem asc_ground_pbc2 chain min_s max_s H z : asc_to_quso 2 chain min_s max_s true = Ok H ->
+  0 < min_s -> 0 < max_s -> spin_env z -> (forall z', spin_env z' -> eval z (tm H) <= eval z' (tm H)) ->
+  z 0%nat * z 1%nat == 1.
+Proof.
+  intros HH Hmin Hmax Hz Hm.
+  assert (Hneg : asc_strength chain min_s max_s 1 < 0) by (unfold asc_strength; destruct (Nat.even (1 / chain)); lra).
+  assert (H1 : spin_env (fun _ => 1)) by (intros i; left; reflexivity).
+  pose proof (Hm _ H1) as M. rewrite (asc_value_pbc2 _ _ _ _ HH z Hz), (asc_value_pbc2 _ _ _ _ HH _ H1) in M.
+  destruct (Hz 0%nat) as [E1|E1], (Hz 1%nat) as [E2|E2]; rewrite E1, E2 in *; try ring; exfalso; nra.
+Qed.
